@@ -25,6 +25,10 @@ META = {
         "c13_content_no_panic is FALSE on the pinned tree: c13_refuted (unsupported fMP4 codec -> nil decodePayload) and "
         "c13_refuted_zero_timescale (mdhd time scale 0 -> integer divide by zero); the partial theorem assumes all fMP4 init codecs supported and time scales non-zero",
         "model-compared streams keep sample times either below 0.2 s or beyond 1 h, so that the sleep in handleData does not decide the class",
+        "byte ranges (EXT-X-BYTERANGE, EXT-X-MAP BYTERANGE; with / without the optional offset; separate resources and consecutive sub-ranges of one resource): "
+        "the stub server honours the Range header (206 with exactly those bytes, 416 past the end) and the model is fed the bytes the UNCHANGED client obtains "
+        "(a length-only range is requested from offset 0 - for a sub-range that is not the first of its resource this is C10's recorded finding range-implicit, "
+        "not judged here: C13 wants no panic, no wedge, an error or normal play)",
         "search-only (oracle) leg, NOT covered by any theorem: the MPEG-TS track processor's buffered sample queue (clientMPEGTSSampleQueueSize = 100) and the "
         "blocking push into it are not in the model - c13_no_wedge_after_repair speaks about Err EBlocked inside client_run_gen, whose MPEG-TS path hands every "
         "unit to its track processor at once; that a stream processor blocked in push (segments with more than 100 units of one track) still ends with the "
